@@ -238,12 +238,19 @@ theorem step_ok {w : World} (hinv : Inv w) (op : Op) (hin : noKnownFinding w op 
       · rename_i k kvs _ src hl hd
         exact stepOK_map hinv c k _ _ (kvToks kvs) (oldToks_of_lookup hl) (cons_mapAssign k w.next kvs _ hpos)
           (keys_mapAssign k w.next kvs _)
-      · -- sequence ← map: in contract only for an empty source (the destination is cleared, nothing else happens)
+      · -- sequence ← map.  List: the destination is cleared (every element finalised), then — source non-empty — the call
+        -- raises: conservation holds either way.  Array: in contract only for an empty source.
         rename_i k ek xs _ src hl hd
-        have hsrc : src = [] := by
-          simp [noKnownFinding, srcIsBox, crossRefused, hl, hd, Cont.isBox, hcd] at hin; exact hin
-        subst hsrc
-        exact stepOK_seq hinv c k .probe _ _ _ xs (oldToks_of_lookup hl) (by simp [seqAssignFromMap, Conserves, FreshFrom])
+        cases k with
+        | list =>
+          refine stepOK_seq hinv c .list .probe _ _ _ xs (oldToks_of_lookup hl) ?_
+          simp only [seqAssignFromMap]
+          split <;> simp [Conserves, FreshFrom]
+        | array =>
+          have hsrc : src = [] := by
+            simp [noKnownFinding, srcIsBox, crossRefused, hl, hd, Cont.isBox, hcd] at hin; exact hin
+          subst hsrc
+          exact stepOK_seq hinv c .array .probe _ _ _ xs (oldToks_of_lookup hl) (by simp [seqAssignFromMap, Conserves, FreshFrom])
       · exact stepOK_bad hinv
   | copy c d =>
     simp only [step]
